@@ -629,4 +629,134 @@ theorem stepSingle_facts (st : St) (s r0 : Nat) (g : Bool) (hcm : st.cm.Nodup) (
       exact processOne_get_good st.q st.cm st.c s r0
 
 
+theorem step_finished (st : St) (m : Msg) (h : st.finished = true) : step st m = (st, .rejected .noRunningDuty) := by
+  unfold step validate; simp [h]
+
+theorem validate_eq_form (st : St) (m : Msg) (hf : st.finished = false) (hd : st.decided = true) :
+    validate st m = validateForm st.cm st.expected m := by
+  unfold validate; simp [hf, hd]
+
+theorem step_rejected (st : St) (m : Msg) (why : Reject) (h : validate st m = some why) : step st m = (st, .rejected why) := by
+  unfold step; rw [h]
+
+theorem run_live (r0 : Nat) (ms : List Msg) (st : St) (hE : st.expected = [r0]) (hcm : st.cm.Nodup)
+    (hdec : st.decided = true) (hS : SInv st r0) (P : List Nat)
+    (hP : st.finished = false → ∀ s ∈ P, st.c.get r0 s = some true) :
+    SInv (run st ms).1 r0 ∧
+    ((run st ms).1.finished = false →
+      ∀ s, (s ∈ P ∨ SentGood st.cm [r0] r0 ms s) → (run st ms).1.c.get r0 s = some true) ∧
+    (st.finished = false → (run st ms).1.finished = true → r0 ∈ (run st ms).2.map (·.root)) := by
+  induction ms generalizing st P with
+  | nil =>
+    refine ⟨hS, ?_, ?_⟩
+    · intro hf s hs
+      rcases hs with h | ⟨m, hm, _⟩
+      · exact hP hf s h
+      · cases hm
+    · intro h1 h2; simp [run, h1] at h2
+  | cons m t ih =>
+    obtain ⟨pq, pcm, pe, _, pd⟩ := step_params st m
+    simp only [run]
+    by_cases hfin : st.finished = true
+    · -- finished: the message is refused, nothing changes
+      rw [step_finished st m hfin]
+      obtain ⟨i1, i2, _⟩ := ih st hE hcm hdec hS (m.signer :: P) (fun h => by simp [hfin] at h)
+      refine ⟨i1, ?_, fun h => by simp [hfin] at h⟩
+      intro hf s hs
+      apply i2 hf s
+      rcases hs with h | ⟨m', hm', h1, h2, h3⟩
+      · exact Or.inl (List.mem_cons_of_mem _ h)
+      · rcases List.mem_cons.1 hm' with e | h
+        · subst e; exact Or.inl (by simp [h1])
+        · exact Or.inr ⟨m', h, h1, h2, h3⟩
+    · have hfin' : st.finished = false := by simpa using hfin
+      cases hv : validateForm st.cm st.expected m with
+      | some why =>
+        have := step_rejected st m why (by rw [validate_eq_form st m hfin' hdec, hv])
+        rw [this]
+        obtain ⟨i1, i2, i3⟩ := ih st hE hcm hdec hS P hP
+        refine ⟨i1, ?_, by simpa [subsOf] using i3⟩
+        intro hf s hs
+        apply i2 hf s
+        rcases hs with h | ⟨m', hm', h1, h2, h3⟩
+        · exact Or.inl h
+        · rcases List.mem_cons.1 hm' with e | h
+          · subst e; rw [← hE, hv] at h2; cases h2
+          · exact Or.inr ⟨m', h, h1, h2, h3⟩
+      | none =>
+        rw [hE] at hv
+        obtain ⟨g, hent⟩ := single_entry st.cm r0 m hv
+        have hval : validate st m = none := by rw [validate_eq_form st m hfin' hdec, hE, hv]
+        have heq := step_single_eq st m r0 g hE hval hent
+        obtain ⟨f1, f2, f3⟩ := stepSingle_facts st m.signer r0 g hcm hfin' hS
+        obtain ⟨hle, _, _⟩ := step_facts st m
+        rw [heq] at pq pcm pe pd hle ⊢
+        have hP' : (stepSingle st m.signer r0 g).1.finished = false →
+            ∀ s ∈ (if g then m.signer :: P else P), (stepSingle st m.signer r0 g).1.c.get r0 s = some true := by
+          intro hf s hs
+          by_cases hg : g = true
+          · simp only [hg, if_true] at hs
+            rcases List.mem_cons.1 hs with e | h
+            · subst e; exact f2 hf hg
+            · exact hle r0 s (hP hfin' s h)
+          · simp only [hg] at hs
+            exact hle r0 s (hP hfin' s hs)
+        obtain ⟨i1, i2, i3⟩ := ih (stepSingle st m.signer r0 g).1 (by rw [pe]; exact hE) (by rw [pcm]; exact hcm)
+          (by rw [pd]; exact hdec) f1 (if g then m.signer :: P else P) hP'
+        refine ⟨i1, ?_, ?_⟩
+        · intro hf s hs
+          apply i2 hf s
+          rcases hs with h | ⟨m', hm', h1, h2, h3⟩
+          · cases g <;> simp [h]
+          · rcases List.mem_cons.1 hm' with e | h
+            · subst e
+              have hg : g = true := by simpa [goodFor, hent] using h3
+              subst hg; subst h1
+              exact Or.inl (by simp)
+            · rw [pcm]; exact Or.inr ⟨m', h, h1, h2, h3⟩
+        · intro _ hfinal
+          simp only [List.map_append, List.mem_append]
+          by_cases h1 : (stepSingle st m.signer r0 g).1.finished = true
+          · exact Or.inl (f3 h1)
+          · exact Or.inr (i3 (by simpa using h1) hfinal)
+
+
+theorem eq_singleton_of_nodup (l : List Nat) (a : Nat) (hnd : l.Nodup) (hall : ∀ x ∈ l, x = a) (hmem : a ∈ l) : l = [a] := by
+  match l, hmem with
+  | [x], _ => rw [hall x (by simp)]
+  | x :: y :: t, _ =>
+    have hx := hall x (by simp)
+    have hy := hall y (by simp)
+    subst hx; subst hy
+    simp at hnd
+
+theorem init_cm_nodup (n k : Nat) (style : Style) (d : Bool) : (init n k style d).cm.Nodup := by
+  simp only [init]
+  apply List.Nodup.map_on
+  · intro x _ y _ h; omega
+  · exact List.nodup_range
+
+theorem init_mem_cm (n k : Nat) (style : Style) (d : Bool) (s : Nat) : s ∈ (init n k style d).cm ↔ 1 ≤ s ∧ s ≤ n := by
+  simp only [init, List.mem_map, List.mem_range]
+  constructor
+  · rintro ⟨a, ha, rfl⟩; omega
+  · rintro ⟨h1, h2⟩; exact ⟨s - 1, by omega, by omega⟩
+
+/-- a step never takes the `roots[0]` branch on an empty list -/
+theorem step_no_panic (st : St) (m : Msg) : ∀ st', step st m ≠ (st', .panicked) := by
+  intro st'
+  unfold step
+  split
+  · intro h; cases h
+  · split
+    split
+    · intro h; cases h
+    · next hne =>
+      split
+      · split
+        · simp at hne
+        · split <;> (intro h; cases h)
+      · split
+        split <;> (intro h; cases h)
+
 end Ssv.PartialSig
